@@ -1006,6 +1006,14 @@ impl Transaction {
             }
         }
 
+        // the transactions a block producer generates are not routed. a routing path on one of them
+        // is covered by no check (their signatures and paths are never verified), yet it would count
+        // as routing work of the block and could win the routing payout
+        if self.is_block_generated_type() && !self.path.is_empty() {
+            error!("ERROR: block-generated transaction carries a routing path");
+            return false;
+        }
+
         // Fee Transactions are validated in the block class. There can only
         // be one per block, and they are checked by ensuring the transaction hash
         // matches our self-generated safety check. We do not need to validate
